@@ -33,6 +33,15 @@ CHECKS = {
         "validates the recorded client calls and outcomes (reject) and that the threads performed exactly the model's operation sequence (drift). The as-found code (no re-check under the lock) is refuted. "
         "The sequential sink/limits clauses are model-checked over all part orders/sizes/keyword subsets and validated on the real MPUFileSink in a scratch directory.",
    ref="5/C18", note=TB + "fake boto3 client and fake distributed.Variable/Lock with their documented semantics (no cluster in the sandbox); seams are placed on a harness subclass of MultiPartUpload, not in the repository"),
+ "C19": dict(
+   technique="TLA+ history model of the CRS / transformer caches (CrsCache) model-checked by TLC; TLC-generated histories replayed in fresh interpreters and validated by TLC; equality/hash/token/pickle laws (ValueLaws) evaluated by TLC on observations of families of real objects",
+   text="CrsCache models the construction cache (key rule, string form of the first creator), object lifetimes and the identity-keyed transformer cache; TLC checks on the whole bounded "
+        "state space that a transformer always matches the requested pair and that cached objects stay alive, shows that a bounded cache WOULD break this (expected counterexample) and "
+        "reproduces the known history dependence of the string form (expected counterexample). Simulated histories, long cache-pressure histories and directed churn scenarios derived from "
+        "the eviction counterexample are replayed on the real odc.geo.crs in fresh interpreters; TLC judges every step (string/hash/token stability, equality of equivalent specs, transformer "
+        "against a fresh pyproj one) and compares string forms and object sharing with the model. For 13 families of near-identical values of all listed types TLC checks reflexivity, "
+        "symmetry, transitivity, eq=>hash, unequal=>different token, pickle/copy clauses on the observed matrices and compares == with the field-wise model.",
+   ref="5/C19", note=TB + "pyproj's hash/eq of key objects is tabulated as an environment table; cache clearing stands for a fresh interpreter; transformer correctness judged on one probe point per class against pyproj"),
 }
 
 NOT_YET = "check not built yet (work in progress); see DESIGN.md"
